@@ -138,3 +138,20 @@ impl<'a> core::iter::Sum<&'a Element> for Element {
         iter.fold(Self::zero(), core::ops::Add::add)
     }
 }
+
+/// Verification hooks (compiled only with `--cfg decaf377_verif`): raw access to the
+/// internal extended coordinates, so that a test harness can build arbitrary
+/// representatives (other coset member, projective rescalings, off-curve points) and
+/// check structural invariants of results. Never available in normal builds.
+#[cfg(decaf377_verif)]
+impl Element {
+    pub fn verif_from_xyzt_unchecked(x: Fq, y: Fq, z: Fq, t: Fq) -> Self {
+        Self {
+            inner: EdwardsProjective::new_unchecked(x, y, t, z),
+        }
+    }
+
+    pub fn verif_xyzt(&self) -> (Fq, Fq, Fq, Fq) {
+        (self.inner.x, self.inner.y, self.inner.z, self.inner.t)
+    }
+}
